@@ -114,6 +114,18 @@ struct Block {
     history_retained: bool,
 }
 
+/// a view kept over later operations
+struct Held {
+    height: u64,
+    view: Box<dyn KeyValueInspect<Column = Column>>,
+    expected: Model,
+    /// the view was below the latest height when taken (it depends on reverse diffs)
+    needs_history: bool,
+    /// since the view was taken, reverse diffs above its height were removed
+    /// (by a rollback or by the RewindRange pruning of a later commit)
+    history_removed_since: bool,
+}
+
 struct Hist<'a> {
     report: &'a Report,
     local: Local,
@@ -133,9 +145,14 @@ impl Hist<'_> {
     }
 }
 
-fn open(dir: &TempDir, policy: StateRewindPolicy) -> Result<Database<OnChain>, String> {
+fn open(dir: &TempDir, policy: StateRewindPolicy, cached: bool) -> Result<Database<OnChain>, String> {
+    let mut cfg = DatabaseConfig::config_for_tests();
+    if cached {
+        // block + row cache as in production configurations
+        cfg.cache_capacity = Some(6 * 1024 * 1024);
+    }
     catch(|| {
-        Database::<OnChain>::open_rocksdb(dir.path(), policy, DatabaseConfig::config_for_tests())
+        Database::<OnChain>::open_rocksdb(dir.path(), policy, cfg)
             .map_err(|e| format!("{e:?}"))
     })
     .unwrap_or_else(|p| Err(format!("panic: {p}")))
@@ -320,6 +337,27 @@ fn check_view_reads(
 #[derive(Clone)]
 struct Params {
     steps: usize,
+    /// percent of steps that restart the database (each restart is a RocksDB
+    /// close + open with WAL replay: the dominating cost)
+    restart_percent: u32,
+}
+
+fn params(thorough: bool, steps: Option<usize>) -> Params {
+    let mut p = if thorough {
+        Params {
+            steps: 50,
+            restart_percent: 12,
+        }
+    } else {
+        Params {
+            steps: 40,
+            restart_percent: 8,
+        }
+    };
+    if let Some(s) = steps {
+        p.steps = s;
+    }
+    p
 }
 
 fn run_history(args: &Args, report: &Report, shard: usize, shard_seed: u64, iteration: u64, p: &Params, selftest: u32) {
@@ -354,7 +392,10 @@ fn run_history(args: &Args, report: &Report, shard: usize, shard_seed: u64, iter
         ops: Vec::new(),
         events: Vec::new(),
     };
-    let mut db = match open(&dir, policy) {
+    let cached = chance(&mut rng, 50);
+    hist.local
+        .count(if cached { "histories.with_block_cache" } else { "histories.without_block_cache" });
+    let mut db = match open(&dir, policy, cached) {
         Ok(db) => db,
         Err(e) => {
             report.inconclusive(format!("cannot open rocksdb database: {e}"));
@@ -371,7 +412,7 @@ fn run_history(args: &Args, report: &Report, shard: usize, shard_seed: u64, iter
     let mut all_heights: BTreeSet<u64> = BTreeSet::new();
     // held views: (height, view, expected state)
     #[allow(clippy::type_complexity)]
-    let mut held: Vec<(u64, Box<dyn KeyValueInspect<Column = Column>>, Model)> = Vec::new();
+    let mut held: Vec<Held> = Vec::new();
     let first_height: u64 = *pick(&mut rng, &[0u64, 1, 1, 4]);
 
     // height-less commits before the first block (regenesis-like)
@@ -430,6 +471,11 @@ fn run_history(args: &Args, report: &Report, shard: usize, shard_seed: u64, iter
                         b.history_retained = false;
                     }
                 }
+                for v in held.iter_mut() {
+                    if v.needs_history && pruned_up_to > v.height {
+                        v.history_removed_since = true;
+                    }
+                }
             }
             chain.push(Block {
                 height: h,
@@ -454,6 +500,11 @@ fn run_history(args: &Args, report: &Report, shard: usize, shard_seed: u64, iter
             match catch(|| db.rollback_last_block()) {
                 Ok(Ok(())) => {
                     chain.pop();
+                    for v in held.iter_mut() {
+                        if v.needs_history && top > v.height {
+                            v.history_removed_since = true;
+                        }
+                    }
                     hist.events.push(format!("R{top}"));
                     hist.local.count("rollbacks.ok");
                     hist.local
@@ -491,7 +542,7 @@ fn run_history(args: &Args, report: &Report, shard: usize, shard_seed: u64, iter
                 check_latest(&mut hist, &db, &chain, &base, &what);
                 chain.pop();
             }
-        } else if roll < 88 {
+        } else if roll < 74 + p.restart_percent {
             // ---- restart, possibly with another policy
             held.clear();
             drop(db);
@@ -499,7 +550,7 @@ fn run_history(args: &Args, report: &Report, shard: usize, shard_seed: u64, iter
             if !fixed_policy && chance(&mut rng, 80) {
                 policy = *pick(&mut rng, &policies);
             }
-            db = match open(&dir, policy) {
+            db = match open(&dir, policy, cached) {
                 Ok(db) => db,
                 Err(e) => {
                     report.inconclusive(format!("cannot reopen rocksdb database: {e}"));
@@ -521,8 +572,13 @@ fn run_history(args: &Args, report: &Report, shard: usize, shard_seed: u64, iter
                 if let Ok(Ok(v)) = catch(|| db.view_at(&BlockHeight::from(h as u32))) {
                     let contiguous = chain.iter().filter(|x| x.height > h).all(|x| x.history_retained);
                     if contiguous && held.len() < 3 {
-                        let v: Box<dyn KeyValueInspect<Column = Column>> = Box::new(v);
-                        held.push((h, v, b.state.clone()));
+                        held.push(Held {
+                            height: h,
+                            view: Box::new(v),
+                            expected: b.state.clone(),
+                            needs_history: Some(h) != chain.last().map(|l| l.height),
+                            history_removed_since: false,
+                        });
                         hist.local.count("held_views.taken");
                     }
                 }
@@ -536,7 +592,10 @@ fn run_history(args: &Args, report: &Report, shard: usize, shard_seed: u64, iter
         for (i, b) in chain.iter().enumerate() {
             let h = b.height;
             let gap = chain[i + 1..].iter().any(|x| !x.history_retained);
-            let differs = Some(&b.state) != chain.last().map(|l| &l.state);
+            let differs = chain
+                .last()
+                .map(|l| DATA_COLS.iter().any(|c| l.state.col(c.id()) != b.state.col(c.id())))
+                .unwrap_or(false);
             match catch(|| db.view_at(&BlockHeight::from(h as u32))) {
                 Ok(Ok(view)) => {
                     hist.local.count(if Some(h) == latest {
@@ -547,7 +606,26 @@ fn run_history(args: &Args, report: &Report, shard: usize, shard_seed: u64, iter
                         "views.ok.history_contiguous"
                     });
                     let corrupt = selftest == 1 && !gap && Some(h) != latest;
-                    match check_view_reads(&mut hist, &view, &ks, &all_heights, &b.state, corrupt) {
+                    let mut reads = check_view_reads(&mut hist, &view, &ks, &all_heights, &b.state, corrupt);
+                    // the metadata row read through the view carries the height
+                    if let Ok(m) = &mut reads {
+                        hist.local.evals += 1;
+                        match catch(|| {
+                            view.storage::<MetadataTable<OnChain>>()
+                                .get(&())
+                                .map(|m| m.map(|m| u32::from(*m.height()) as u64))
+                                .map_err(|e| format!("{e}"))
+                        }) {
+                            Ok(Ok(mh)) => {
+                                if mh != Some(h) {
+                                    m.push(format!("metadata row: expected height {h} observed {mh:?}"));
+                                }
+                            }
+                            Ok(Err(e)) => reads = Err(format!("reading the metadata row failed: {e}")),
+                            Err(pn) => reads = Err(format!("reading the metadata row panicked: {pn}")),
+                        }
+                    }
+                    match reads {
                         Ok(m) if m.is_empty() => {
                             if differs && Some(h) != latest {
                                 hist.local.count("views.ok.state_differs_from_latest");
@@ -576,28 +654,6 @@ fn run_history(args: &Args, report: &Report, shard: usize, shard_seed: u64, iter
                         Err(e) => {
                             hist.violation("view_read_failed", format!("view_at({h}) succeeded but {e}"));
                         }
-                    }
-                    // the metadata seen through the view carries the height
-                    match catch(|| {
-                        view.storage::<MetadataTable<OnChain>>()
-                            .get(&())
-                            .map(|m| m.map(|m| u32::from(*m.height()) as u64))
-                    }) {
-                        Ok(Ok(mh)) => {
-                            if mh != Some(h) {
-                                let signature = if gap {
-                                    "view_at_wrong_metadata_height cause=history_gap_above_height"
-                                } else {
-                                    "view_at_wrong_metadata_height cause=none_history_contiguous"
-                                };
-                                hist.violation(
-                                    signature,
-                                    format!("view_at({h}) shows metadata height {mh:?} (latest {latest:?})"),
-                                );
-                            }
-                        }
-                        Ok(Err(e)) => hist.violation("view_read_failed", format!("metadata through view_at({h}): {e}")),
-                        Err(pn) => hist.violation("view_read_failed", format!("metadata through view_at({h}) panicked: {pn}")),
                     }
                 }
                 Ok(Err(e)) => {
@@ -631,19 +687,29 @@ fn run_history(args: &Args, report: &Report, shard: usize, shard_seed: u64, iter
         }
         // held views still show their height
         let mut still = Vec::new();
-        for (h, view, expected) in held.drain(..) {
+        for v in held.drain(..) {
             // a held view of a height that has been rolled back meanwhile is
             // still a snapshot of the old chain
-            match check_view_reads(&mut hist, view.as_ref(), &ks, &BTreeSet::new(), &expected, false) {
+            let h = v.height;
+            match check_view_reads(&mut hist, v.view.as_ref(), &ks, &BTreeSet::new(), &v.expected, false) {
                 Ok(m) if m.is_empty() => {
-                    hist.local.count("held_views.rechecked");
+                    hist.local.count(if v.history_removed_since {
+                        "held_views.rechecked.after_history_removal"
+                    } else {
+                        "held_views.rechecked"
+                    });
                     if chance(&mut rng, 60) {
-                        still.push((h, view, expected));
+                        still.push(v);
                     }
                 }
                 Ok(m) => {
+                    let signature = if v.history_removed_since {
+                        "held_view_changed cause=history_above_removed_by_later_rollback_or_pruning"
+                    } else {
+                        "held_view_changed cause=none_history_untouched"
+                    };
                     hist.violation(
-                        "held_view_changed_by_later_operation",
+                        signature,
                         format!("a view_at({h}) taken earlier changed after {what}: {}", m.join("; ")),
                     );
                 }
@@ -668,17 +734,20 @@ pub fn run(args: &Args, report: &Report) {
         let shard_seed = r["seed"].as_u64().unwrap_or(0);
         let iteration = r["iteration"].as_u64().unwrap_or(0);
         let shard = r["shard"].as_u64().unwrap_or(0) as usize;
-        let p = Params {
-            steps: r["steps"].as_u64().unwrap_or(30) as usize,
-        };
+        let p = params(
+            r["tier"].as_str() == Some("thorough"),
+            r["steps"].as_u64().map(|s| s as usize),
+        );
         run_history(args, report, shard, shard_seed, iteration, &p, selftest);
         finish(args, report, selftest, true);
         return;
     }
-    let p = Params {
-        steps: args.by_tier(30, 45),
-    };
-    let per_shard: u64 = args.by_tier(20, 300);
+    let p = params(args.is_thorough(), None);
+    let per_shard: u64 = args
+        .extra
+        .get("per-shard")
+        .and_then(|s| s.parse().ok())
+        .unwrap_or(args.by_tier(5, 40));
     let args2 = args.clone();
     let report2 = report.clone();
     run_shards(report, args, 16, move |shard, shard_seed| {
@@ -692,15 +761,14 @@ pub fn run(args: &Args, report: &Report) {
 fn finish(args: &Args, report: &Report, selftest: u32, replay: bool) {
     if !replay {
         let t = |q: u64, th: u64| args.by_tier(q, th);
-        report.require("histories", t(200, 3000));
-        report.require("views.ok.history_contiguous", t(3000, 45_000));
-        report.require("views.ok.state_differs_from_latest", t(1500, 22_000));
-        report.require("views.no_history.gap_above", t(300, 4500));
-        report.require("views.ok.history_gap_above", t(300, 4500));
-        report.require("rollbacks.ok", t(300, 4500));
-        report.require("restarts.policy_changed", t(200, 3000));
-        report.require("held_views.rechecked", t(100, 1500));
-        report.require("view_reads", t(200_000, 3_000_000));
+        report.require("histories", t(24, 500));
+        report.require("views.ok.history_contiguous", t(1000, 10_000));
+        report.require("views.ok.state_differs_from_latest", t(1000, 10_000));
+        report.require("views.no_history.gap_above", t(1000, 10_000));
+        report.require("rollbacks.ok", t(50, 500));
+        report.require("restarts.policy_changed", t(15, 150));
+        report.require("held_views.rechecked", t(50, 500));
+        report.require("view_reads", t(60_000, 600_000));
     }
     if selftest > 0 && report.violation_count() == 0 {
         report.inconclusive(format!("selftest {selftest}: the perturbation was not detected"));
